@@ -28,7 +28,7 @@ MC = {
 }
 
 
-MODEL_MUTANTS = ["BugPtr", "BugWait", "BugListen", "ackstale", "ackany", "clearstale", "sendstale", "noclearattach", "bumpnoncur", "wantleak", "listensize", "lexitnonce", "nobumpself"]
+MODEL_MUTANTS = ["BugPtr", "BugWait", "BugListen", "ackstale", "ackany", "clearstale", "sendstale", "noclearattach", "bumpnoncur", "wantleak", "listensize", "lexitnonce", "nobumpself", "listenwait"]
 
 
 def directed(ctx):
